@@ -718,7 +718,130 @@ fn judge_row(r: &Report, form: &str, cols: &[usize], vals: &[usize], names_ok: b
     }
 }
 
+
+/// Value-count boundary: {65534, 65535, 65536, 65537, 131072} values through every way of building a
+/// `SerializedValues`. Either refused (allowed only above 65535) or element_count() == iter().count() == bound.
+fn run_count_boundary(r: &Report) {
+    use scylla_cql_core::frame::response::result::NativeType;
+    let table = TableSpec::owned("ks".into(), "t".into());
+    let int_ct = ColumnType::Native(NativeType::Int);
+    let judge = |way: &str, n: usize, res: Result<Result<SerializedValues, SerializationError>, String>| {
+        r.eval(1);
+        let case = json!({"leg": "rows", "part": "count-boundary", "way": way, "values": n});
+        match res {
+            Err(p) => r.violation(&format!("rows:count-boundary:panic:{way}"), &format!("binding {n} values via {way} panicked: {p}"), case),
+            Ok(Err(e)) => {
+                if n <= 65535 {
+                    r.violation(&format!("rows:count-boundary:refused-within-limit:{way}"), &format!("{n} values via {way} refused: {e}"), case);
+                } else {
+                    r.nontrivial(1);
+                }
+            }
+            Ok(Ok(sv)) => match catch(AssertUnwindSafe(|| {
+                let mut buf = Vec::new();
+                sv.write_to_request(&mut buf);
+                (sv.element_count() as usize, sv.iter().count(), sv.is_empty(), u16::from_be_bytes([buf[0], buf[1]]) as usize)
+            })) {
+                Err(p) => r.violation(&format!("rows:count-boundary:list-corrupted:{way}"), &format!("{n} values via {way}: reading the list back panicked: {p}"), case),
+                Ok((count, cells, empty, on_wire)) => {
+                    if count != cells || cells != n || on_wire != cells || empty != (n == 0) {
+                        r.violation(
+                            &format!("rows:count-boundary:count-vs-cells:{way}"),
+                            &format!("{n} values bound via {way} were accepted: element_count()={count}, is_empty()={empty}, count written to the request={on_wire}, but the list holds {cells} encoded cells"),
+                            case,
+                        );
+                    } else {
+                        r.nontrivial(1);
+                    }
+                }
+            },
+        }
+    };
+    for n in [65534usize, 65535, 65536, 65537, 131072] {
+        let specs: Vec<ColumnSpec<'static>> = (0..n).map(|i| ColumnSpec::owned(format!("c{i}"), int_ct.clone(), table.clone())).collect();
+        let ctx = RowSerializationContext::from_specs(&specs);
+        let vals: Vec<i32> = (0..n as i32).collect();
+        judge("from_serializable(Vec<T>)", n, catch(AssertUnwindSafe(|| SerializedValues::from_serializable(&ctx, &vals))));
+        judge("from_serializable(&[T])", n, catch(AssertUnwindSafe(|| SerializedValues::from_serializable(&ctx, &vals.as_slice()))));
+        let hm: HashMap<String, i32> = (0..n).map(|i| (format!("c{i}"), i as i32)).collect();
+        judge("from_serializable(HashMap<String,T>)", n, catch(AssertUnwindSafe(|| SerializedValues::from_serializable(&ctx, &hm))));
+        let names: Vec<String> = (0..n).map(|i| format!("c{i}")).collect();
+        let bm: BTreeMap<&str, i32> = names.iter().enumerate().map(|(i, s)| (s.as_str(), i as i32)).collect();
+        judge("from_serializable(BTreeMap<&str,T>)", n, catch(AssertUnwindSafe(|| SerializedValues::from_serializable(&ctx, &bm))));
+        judge(
+            "from_closure(make_cell_writer)",
+            n,
+            catch(AssertUnwindSafe(|| {
+                SerializedValues::from_closure(|w| {
+                    for i in 0..n {
+                        w.make_cell_writer().set_value(&(i as i32).to_be_bytes()).unwrap();
+                    }
+                    Ok(())
+                })
+                .map(|(sv, ())| sv)
+            })),
+        );
+        // from_closure appending an existing full list plus single cells
+        let mut full = SerializedValues::new();
+        for i in 0..65534i32 {
+            full.add_value(&i, &int_ct).expect("65534 values fit");
+        }
+        judge(
+            "from_closure(append_serialize_row+cells)",
+            n,
+            catch(AssertUnwindSafe(|| {
+                SerializedValues::from_closure(|w| {
+                    let mut left = n;
+                    while left >= 65534 {
+                        w.append_serialize_row(&full);
+                        left -= 65534;
+                    }
+                    for i in 0..left {
+                        w.make_cell_writer().set_value(&(i as i32).to_be_bytes()).unwrap();
+                    }
+                    Ok(())
+                })
+                .map(|(sv, ())| sv)
+            })),
+        );
+        // add_value loop: adds beyond 65535 must be refused and leave the list unchanged
+        r.eval(1);
+        let mut sv = SerializedValues::new();
+        let mut bound = 0usize;
+        let mut broken = false;
+        for i in 0..n {
+            let before = (sv.element_count(), sv.buffer_size());
+            match sv.add_value(&(i as i32), &int_ct) {
+                Ok(()) => bound += 1,
+                Err(_) => {
+                    if (sv.element_count(), sv.buffer_size()) != before {
+                        r.violation("rows:count-boundary:refusal-changed-list:add_value", &format!("add_value #{} refused but the list changed", i + 1), json!({"leg": "rows", "part": "count-boundary", "way": "add_value", "values": n}));
+                        broken = true;
+                        break;
+                    }
+                }
+            }
+        }
+        if !broken {
+            let want_bound = n.min(65535);
+            let cells = catch(AssertUnwindSafe(|| sv.iter().count())).unwrap_or(usize::MAX);
+            if bound != want_bound || sv.element_count() as usize != cells || cells != bound {
+                r.violation(
+                    "rows:count-boundary:count-vs-cells:add_value",
+                    &format!("{n} add_value calls: {bound} accepted (expected {want_bound}), element_count()={}, {cells} encoded cells", sv.element_count()),
+                    json!({"leg": "rows", "part": "count-boundary", "way": "add_value", "values": n}),
+                );
+            } else {
+                r.nontrivial(1);
+            }
+        }
+    }
+    r.counters.add("count_boundary_sizes", 5);
+    r.counters.add("count_boundary_ways", 7);
+}
+
 pub fn run_rows(r: &Report) {
+    run_count_boundary(r);
     let col_types = [t_int(), t_text(), list_of(t_int())];
     let kinds = row_value_kinds();
     let table = TableSpec::owned("ks".into(), "t".into());
@@ -811,7 +934,7 @@ pub fn run_rows(r: &Report) {
             }
         }
     });
-    r.set_rule("E-ENUM rows. Every column list of length 0..3 over {int, text, list<int>} x every value list of length 0..3 over {int, text, list<int>, a list whose 2nd element is text, null, not-set} (equal arity: all; arity off by one: all-int values) bound as Vec<T>, &[T], Rust tuple, HashMap<String,T> and BTreeMap<&str,T> (right names, one wrong name, one extra name) through SerializedValues::from_serializable: accepted iff every value fits its column and arity/names match; on success element_count() == iter().count() == number of columns and the bytes are the concatenated reference cells. distinct_nontrivial = accepted rows verified.");
+    r.set_rule("E-ENUM rows. Every column list of length 0..3 over {int, text, list<int>} x every value list of length 0..3 over {int, text, list<int>, a list whose 2nd element is text, null, not-set} (equal arity: all; arity off by one: all-int values) bound as Vec<T>, &[T], Rust tuple, HashMap<String,T> and BTreeMap<&str,T> (right names, one wrong name, one extra name) through SerializedValues::from_serializable: accepted iff every value fits its column and arity/names match; on success element_count() == iter().count() == number of columns and the bytes are the concatenated reference cells. Value-count boundary: {65534, 65535, 65536, 65537, 131072} int values through from_serializable over Vec, slice, HashMap<String,_>, BTreeMap<&str,_> with a matching context of that many columns, from_closure (cell by cell; appending an existing list), and an add_value loop: refused (only above 65535, list unchanged) or element_count() == iter().count() == count on the wire == number bound. distinct_nontrivial = accepted rows verified + boundary cases decided.");
     r.set_exhaustive(true);
     r.sample(json!({"columns": ["int", "list<int>"], "row": "HashMap<String,_> {c1: [1,2], c0: 7}", "expected": "accepted; 2 cells; bytes = reference cells in column order"}));
     r.sample(json!({"columns": ["int", "text"], "row": "(7, [1, 'x'])", "expected": "refused"}));
